@@ -1,3 +1,4 @@
+use std::cmp::Ordering;
 use std::hash::{Hasher, Hash};
 use std::collections::{BTreeSet};
 use std::iter::FromIterator;
@@ -58,13 +59,14 @@ impl<'a, T: ColumnProvider> ExpressionExecutionEngine<'a, T> {
                 }
 
                 if !left_value.is_null() && !right_value.is_null() {
+                    let ordering = compare_values(&left_value, &right_value)?;
                     match operator {
-                        CompareOperator::Equal => Ok(Value::Bool(left_value == right_value)),
-                        CompareOperator::NotEqual => Ok(Value::Bool(left_value != right_value)),
-                        CompareOperator::GreaterThan => Ok(Value::Bool(left_value > right_value)),
-                        CompareOperator::GreaterThanOrEqual => Ok(Value::Bool(left_value >= right_value)),
-                        CompareOperator::LessThan => Ok(Value::Bool(left_value < right_value)),
-                        CompareOperator::LessThanOrEqual => Ok(Value::Bool(left_value <= right_value))
+                        CompareOperator::Equal => Ok(Value::Bool(ordering == Ordering::Equal)),
+                        CompareOperator::NotEqual => Ok(Value::Bool(ordering != Ordering::Equal)),
+                        CompareOperator::GreaterThan => Ok(Value::Bool(ordering == Ordering::Greater)),
+                        CompareOperator::GreaterThanOrEqual => Ok(Value::Bool(ordering != Ordering::Less)),
+                        CompareOperator::LessThan => Ok(Value::Bool(ordering == Ordering::Less)),
+                        CompareOperator::LessThanOrEqual => Ok(Value::Bool(ordering != Ordering::Greater))
                     }
                 } else {
                     Ok(Value::Bool(false))
@@ -638,6 +640,15 @@ impl std::fmt::Display for EvaluationError {
     }
 }
 
+
+fn compare_values(left: &Value, right: &Value) -> Result<Ordering, EvaluationError> {
+    left.compare(right).ok_or_else(|| {
+        match (left.value_type(), right.value_type()) {
+            (Some(left_type), Some(right_type)) => EvaluationError::TypeError(left_type, right_type),
+            _ => EvaluationError::ExpectedNonNull
+        }
+    })
+}
 
 pub fn unique_values(values: &mut Vec<Value>) {
     let unique_values = std::mem::take(values);
